@@ -148,8 +148,8 @@ struct Space
          p.name = "closed_programs";
          p.root = { CORE_ATOMS, CORE_OPS, CORE_OPS3 };
          p.inner = p.root;
-         p.N = thorough ? 3 : 3;
-         p.L = thorough ? 4 : 3;
+         p.N = 3;
+         p.L = 4;
          p.sigma = "abc";
          p.cfgs = cfg_product( { 0, 1, 2, 3 }, { 0 }, { 1, 0 }, { 1, 0 } );
          if( !thorough ) {
@@ -171,8 +171,8 @@ struct Space
          p.root = { CORE_OPS, CORE_OPS3 };
          p.inner = { "HOLE", "ANY", "EOF_", CORE_OPS, "SEQ1", "SOR1" };
          p.N = 3;
-         p.L = thorough ? 3 : 2;
-         p.Lmin = p.L;
+         p.L = 3;
+         p.Lmin = 2;
          p.sigma = "x";
          p.need_hole = true;
          p.cfgs = cfg_product( { 0, 3 }, { 0 }, { 1 }, { 1, 0 } );
@@ -199,8 +199,8 @@ struct Space
          p.root = { CONV_OPS, CONV_OPS3, REP_OPS };
          p.inner = { "HOLE" };
          p.N = 4;
-         p.L = thorough ? 3 : 2;
-         p.Lmin = p.L;
+         p.L = thorough ? 5 : 4;
+         p.Lmin = 2;
          p.sigma = "x";
          p.need_hole = true;
          p.cfgs = cfg_product( { 0, 1 }, { 0 }, { 1 }, { 1, 0 } );  // with and without actions on every rule (who holds the rewind guard changes)
@@ -213,7 +213,7 @@ struct Space
          p.inner = { "HOLE", CONV_OPS, REP_OPS };
          p.flat_inner = true;
          p.N = 4;
-         p.L = 2;
+         p.L = thorough ? 5 : 4;
          p.Lmin = 2;
          p.sigma = "x";
          p.need_hole = true;
@@ -227,7 +227,7 @@ struct Space
          p.inner = { "HOLE", "SEQ", "SOR", "STAR", "OPT", "NOT_AT" };
          p.flat_inner = true;
          p.N = 4;
-         p.L = 2;
+         p.L = thorough ? 5 : 4;
          p.Lmin = 2;
          p.sigma = "x";
          p.need_hole = true;
@@ -252,7 +252,7 @@ struct Space
          p.root = { CONV_OPS, CONV_OPS3, REP_OPS };
          p.inner = { "ANY", "ONE_A", "STRING_AB", "EOF_", "SUCCESS" };
          p.N = 4;
-         p.L = thorough ? 5 : 4;
+         p.L = thorough ? 7 : 6;
          p.sigma = "ab";
          p.cfgs = cfg_product( { 0 }, { 0 }, { 1 }, { 1, 0 } );
          phases.push_back( p );
@@ -377,11 +377,11 @@ struct Space
          p.root = { CORE_OPS, "TC_RF", "TC_ANY_RF", "MUST" };
          p.inner = { "ANY", "ONE_A", "EOF_", "SUCCESS", CORE_OPS, "TC_RF", "TC_ANY_RF", "MUST" };
          p.N = 3;
-         p.L = thorough ? 4 : 3;
+         p.L = thorough ? 6 : 5;
          p.sigma = "ab";
          p.act_may_throw = true;
          p.act_may_veto = true;
-         p.dev_bound = thorough ? 2 : 1;
+         p.dev_bound = thorough ? 3 : 2;
          p.cfgs = cfg_product( { 0, 1, 5, 6 }, { 0 }, { 1 }, { 0 } );
          phases.push_back( p );
 #if TREE_SEL == 0
@@ -418,7 +418,7 @@ struct Space
          p.root = { CORE_OPS, "MUST", "UNTIL1" };
          p.inner = { "ANY", "ONE_A", "STRING_AB", "EOF_", "BYTES2", "EVERYTHING", "SUCCESS", CORE_OPS, "MUST", "UNTIL1" };
          p.N = 3;
-         p.L = thorough ? 5 : 4;
+         p.L = thorough ? 6 : 5;
          p.sigma = "ab";
          p.buf_modes = { 1 };
          p.counters = { { 0, 1, 1 }, { 7, 3, 5 } };  // the window is relative to the cursor, not to the input's byte counter
